@@ -396,11 +396,15 @@ type c09Oracle struct {
 	c            *Case
 	justUnjailed map[string]bool
 	convicted    map[string]bool
-	jailings     int
-	refused      int
-	accepted     int
-	stopped      bool
-	aborted      bool
+	// jailed-until per address as the statement defines it, kept by the oracle itself: the block time of the
+	// downtime jailing plus the jail duration in force then; year 9999 after a conviction; the epoch before
+	// any jailing. The stored signing info is not consulted (it is part of what is being judged).
+	until    map[string]time.Time
+	jailings int
+	refused  int
+	accepted int
+	stopped  bool
+	aborted  bool
 }
 
 func (o *c09Oracle) after(ch *chain, ci *callInfo) *Violation {
@@ -423,9 +427,15 @@ func (o *c09Oracle) after(ch *chain, ci *callInfo) *Violation {
 		if bz, ok := before.Raw[sdk.ParamsKey.Name()]["pos/MaxEvidenceAge"]; ok {
 			_ = simCdc.UnmarshalJSON(bz, &maxAge)
 		}
+		var jailDur int64
+		if bz, ok := before.Raw[sdk.ParamsKey.Name()]["pos/DowntimeJailDuration"]; ok {
+			_ = simCdc.UnmarshalJSON(bz, &jailDur)
+		}
 		for a, av := range after.Vals {
 			if bv, ok := before.Vals[a]; ok && !bv.Jailed && av.Jailed {
 				o.jailings++
+				// downtime unless the evidence loop below finds a conviction
+				o.until[a] = ci.Time.Add(time.Duration(jailDur))
 			}
 		}
 		for _, ev := range ci.Req.ByzantineValidators {
@@ -439,6 +449,7 @@ func (o *c09Oracle) after(ch *chain, ci *callInfo) *Violation {
 				continue
 			}
 			o.convicted[a] = true
+			o.until[a] = postypes.DoubleSignJailEndTime
 			si := after.Sign[a]
 			av := after.Vals[a]
 			if !si.Tombstoned || !av.Jailed || !si.JailedUntil.Equal(postypes.DoubleSignJailEndTime) {
@@ -455,11 +466,15 @@ func (o *c09Oracle) after(ch *chain, ci *callInfo) *Violation {
 		a := hex.EncodeToString(m.ValidatorAddr)
 		bv, exists := before.Vals[a]
 		si, hasInfo := before.Sign[a]
-		admissible := exists && bv.Jailed && !bv.StakedTokens.LT(sdk.NewInt(minStake)) && hasInfo && !si.Tombstoned && !ci.Time.Before(si.JailedUntil)
+		until, jailedBefore := o.until[a]
+		if !jailedBefore {
+			until = time.Unix(0, 0)
+		}
+		admissible := exists && bv.Jailed && !bv.StakedTokens.LT(sdk.NewInt(minStake)) && hasInfo && !si.Tombstoned && !o.convicted[a] && !ci.Time.Before(until)
 		if ci.Deliver.Code == 0 {
 			if !admissible {
-				return violf("C09/unjail-accepted", "%s: unjail of %s accepted although exists=%v jailed=%v stake=%v min=%d tombstoned=%v jailedUntil=%s blockTime=%s",
-					where, a, exists, bv.Jailed, bv.StakedTokens, minStake, si.Tombstoned, si.JailedUntil, ci.Time)
+				return violf("C09/unjail-accepted", "%s: unjail of %s accepted although exists=%v jailed=%v stake=%v min=%d tombstoned=%v convicted=%v jailed-until=%s (stored %s) blockTime=%s",
+					where, a, exists, bv.Jailed, bv.StakedTokens, minStake, si.Tombstoned, o.convicted[a], until, si.JailedUntil, ci.Time)
 			}
 			if after.Vals[a].Jailed {
 				return violf("C09/unjail-no-effect", "%s: accepted unjail left %s jailed", where, a)
@@ -553,7 +568,7 @@ func (bt *builtTx) msgUnjail() (postypes.MsgUnjail, bool) {
 
 var valsetKinds = []string{"stake", "stake", "stake", "unstake", "unstake", "unjail", "unjail", "burn", "burn", "send", "award", "param"}
 
-var c05Profile = &histProfile{MaxBlocks: 24, MinBlocksOf: []int{3, 8, 14}, Evidence: 4, Missed: 1, Restart: 0, MaxTxs: 4, TxKinds: valsetKinds, Scripts: true, Batches: true,
+var c05Profile = &histProfile{MaxBlocks: 24, MinBlocksOf: []int{3, 8, 14}, Evidence: 4, Missed: 1, Restart: 0, MaxTxs: 4, TxKinds: valsetKinds, Scripts: true, Batches: true, Anchor: true,
 	MaxVals: []uint64{1, 2, 3, 5, 100000}, Windows: []int64{10, 10, 14}}
 
 func genValset(pr *histProfile, noMinChange bool) func(t *rapid.T, tier string) interface{} {
@@ -636,7 +651,7 @@ func execC09(prog interface{}, c *Case) *Violation {
 	if v != nil || ch == nil {
 		return v
 	}
-	o := &c09Oracle{c: c, justUnjailed: map[string]bool{}, convicted: map[string]bool{}}
+	o := &c09Oracle{c: c, justUnjailed: map[string]bool{}, convicted: map[string]bool{}, until: map[string]time.Time{}}
 	if v := ch.run(o); v != nil {
 		return v
 	}
@@ -664,10 +679,20 @@ func execC09(prog interface{}, c *Case) *Violation {
 var _ = bytes.Equal
 
 func init() {
-	c06Profile := &histProfile{MaxBlocks: 24, MinBlocksOf: []int{3, 8, 14}, Evidence: 5, Missed: 2, Restart: 0, MaxTxs: 5, FixedMin: true, Scripts: true, Batches: true,
+	c06Profile := &histProfile{MaxBlocks: 24, MinBlocksOf: []int{3, 8, 14}, Evidence: 5, Missed: 2, Restart: 0, MaxTxs: 5, FixedMin: true, Scripts: true, Batches: true, Anchor: true,
 		TxKinds: []string{"stake", "stake", "stake", "unstake", "unstake", "unstake", "unjail", "burn", "burn", "send", "award"}, Windows: []int64{10, 10, 14}}
-	c09Profile := &histProfile{MaxBlocks: 30, MinBlocksOf: []int{6, 12, 20}, Evidence: 5, Missed: 1, Restart: 0, MaxTxs: 4, Scripts: true, Batches: true,
-		TxKinds: []string{"unjail", "unjail", "unjail", "stake", "unstake", "burn", "send", "param"}, Windows: []int64{10, 10, 10}}
+	c09Profile := &histProfile{MaxBlocks: 30, MinBlocksOf: []int{6, 12, 20}, Evidence: 5, Missed: 1, Restart: 0, MaxTxs: 4, Scripts: true, Batches: true, Anchor: true,
+		TxKinds: []string{"unjail", "unjail", "unjail", "stake", "unstake", "burn", "send", "param"}, Windows: []int64{10, 10, 10},
+		ScriptTemplates: [][]string{
+			{"downtime", "unjail!", "wait", "unjail"},
+			{"downtime", "stake!", "unjail!", "wait", "unjail"},
+			{"downtime", "burn1!", "wait!", "stake!", "unjail!", "wait", "unjail"},
+			{"downtime", "evidence!", "wait", "unjail"},
+			{"evidence", "stake!", "unjail!", "wait", "unjail"},
+			{"downtime", "unstake!", "unjail!", "wait", "unjail"},
+			{"burn1", "wait!", "stake!", "downtime", "unjail!", "wait", "unjail"},
+			{"downtime", "burn!", "unjail!", "stake!", "unjail!"},
+		}}
 	register(&PropDef{ID: "C05",
 		Rule: "chain histories biased to staking-state changes with MaxValidators in {1,2,3,5,100000} (also changed by governance), equal-power groups, powers straddling the cut-off, jail/unjail, slashes, " +
 			"burns, forced unstakes and maturity; InitChain's and every EndBlock's update batch is applied to a mirror of Tendermint's set (no key twice, no removal of an absent key, no negative power) and to a " +
